@@ -140,6 +140,8 @@ def ri(v, pend=None):
         ("ri:buckets", z3.ForAll([h, p], z3.Implies(z3.And(v.H.has(h), 0 <= p, p < v.bucket_n(h)),
                                                     z3.And(v.inR(idx), v.hk(idx) == h, v.slot[idx] == p)))),
         ("ri:distinct-inputs", z3.ForAll([i, j], z3.Implies(z3.And(v.inR(i), v.inR(j), i != j), v.cin[i] != v.cin[j]))),
+        # nothing is stored beyond max_index: what makes the no-op ``_initialize_entry`` of a file-based cache (HDF5Cache) correct
+        ("ri:nothing-stored-beyond-max-index", z3.ForAll([i, g], z3.Implies(i > v.M, z3.Not(v.has(i, g))))),
     ]
 
 
@@ -276,7 +278,9 @@ class _InitializeEntry(_Storage):
         return ("self." + self.field, "heap:arr")
 
     def requires(self, c):
-        return list(AXIOMS)
+        # call site (__ensure_input_data_exists): the index is the new max_index, nothing is stored under it yet
+        g = z3.Const("g!ie", TStr.sort())
+        return AXIOMS + [("index-unused", z3.ForAll([g], z3.Not(self.v(c).has(c.old.index, g))))]
 
     def ensures(self, c):
         v1 = self.v(c, "new")
@@ -291,7 +295,8 @@ class _HasGroup(_Storage):
     returns = TBool
 
     def requires(self, c):
-        return [("initialized", self.v(c).init(c.old.index))]
+        # call site (_cache_inputs): the entry of a known input data, whose inputs are written
+        return [("initialized", self.v(c).init(c.old.index)), ("inputs-present", self.v(c).has(c.old.index, G_IN))]
 
     def ensures(self, c):
         return [("value", c.result == self.v(c).has(c.old.index, sterm(c.old.group)))]
@@ -307,7 +312,8 @@ class _WriteData(_Storage):
     def requires(self, c):
         v0 = self.v(c)
         g, k, idx = z3.Const("g!wd", TStr.sort()), kq("k!wd"), c.old.index
-        return AXIOMS + [("initialized", v0.init(idx)), ("values-allocated", allocated(c.old.values, c.old_ctr)),
+        # call sites (_cache_inputs, cache_outputs, cache_jacobian): a group is written once, into an entry that does not have it yet
+        return AXIOMS + [("initialized", v0.init(idx)), ("group-absent", z3.Not(v0.has(idx, sterm(c.old.group)))), ("values-allocated", allocated(c.old.values, c.old_ctr)),
                          ("entry-allocated", z3.ForAll([g, k], z3.Implies(z3.And(v0.has(idx, g), v0.dmem(idx, g)[k]), z3.And(v0.dvals(idx, g)[k] > 0, v0.dvals(idx, g)[k] <= v0.ctr))))]
 
     def ensures(self, c):
@@ -338,7 +344,8 @@ class _ReadData(_Storage):
     def requires(self, c):
         v0 = self.v(c)
         idx, k, g = c.old.index, kq("k!rd"), sterm(c.old.group)
-        return AXIOMS + [("initialized", v0.init(idx)),
+        # call sites: entries 1..max_index whose inputs are written (ri:inputs-present)
+        return AXIOMS + [("initialized", v0.init(idx)), ("inputs-present", v0.has(idx, G_IN)),
                          ("entry-allocated", z3.ForAll([k], z3.Implies(z3.And(v0.has(idx, g), v0.dmem(idx, g)[k]), z3.And(v0.dvals(idx, g)[k] > 0, v0.dvals(idx, g)[k] <= v0.ctr))))]
 
     def ensures(self, c):
